@@ -183,7 +183,7 @@ def cargo_build(features=(), target_sub=None, bins=None):
     """Builds the harness against /repo's current working tree (cargo's own change detection)."""
     key = (tuple(features), target_sub)
     if key in _built:
-        return bin_dir(target_sub)
+        return _bin_dir(target_sub)
     cmd = ["cargo", "build", "--offline", "--quiet"]
     if features:
         cmd += ["--features", ",".join(features)]
@@ -200,12 +200,19 @@ def cargo_build(features=(), target_sub=None, bins=None):
         raise ToolError("harness build failed:\n" + "\n".join(p.stdout.splitlines()[-40:]))
     log("  harness build %.1fs" % (time.time() - t0))
     _built.add(key)
-    return bin_dir(target_sub)
+    return _bin_dir(target_sub)
+
+
+def _bin_dir(target_sub=None):
+    base = os.path.join(HARNESS, "target", target_sub) if target_sub else os.path.join(HARNESS, "target")
+    return os.path.join(base, "debug")
 
 
 def bin_dir(target_sub=None):
-    base = os.path.join(HARNESS, "target", target_sub) if target_sub else os.path.join(HARNESS, "target")
-    return os.path.join(base, "debug")
+    """Directory of the harness binaries - never stale: they are (re)built from /repo's current tree first (once per run)."""
+    if not any(k[1] == target_sub for k in _built):
+        cargo_build(target_sub=target_sub)
+    return _bin_dir(target_sub)
 
 
 def _limits(mem_bytes):
